@@ -50,7 +50,7 @@ impl<O: Oracle> Driver<O> {
         let post = snap(&self.it);
         self.rec.op(line, &ans);
         let head = line.split(' ').next().unwrap_or("");
-        let cls = if ans.starts_with("ok") { "ok" } else { ans.as_str() };
+        let cls = if ans.starts_with("ok") || head == "bytes" { "ok" } else { ans.as_str() };
         self.rec.bump(&format!("op:{head}:{cls}"));
         self.oracle.observe(&mut self.rec, pre.as_ref(), line, &ans, post.as_ref());
         ans
